@@ -473,7 +473,7 @@ func c14RawBytes(w *W, r *rand.Rand) {
 		w.Fail("formatter-panic/"+normPanic(fo.Panic)+"@"+panicSite(fo.Stack), "IndentByParentheses panicked: %v\ninput: %q", fo.Panic, src)
 		return
 	}
-	for _, text := range []string{out, strings.ReplaceAll(src, " ", "  "), "\t" + src + "\n"} {
+	for _, text := range []string{out, "  " + src + " ", "\t" + src + "\n", strings.Replace(src, "(", "(\n ", 1)} {
 		c, ok := c14Compile(w, cc, text, "a formatted / re-laid-out source with bytes that are not valid UTF-8")
 		if !ok {
 			return
